@@ -211,6 +211,15 @@ def run_check(prop, tier, seed, workers, budget_s=None, only=None):
     timed_out = False
     work = [(i, cases[i]) for i in order]
     isolate = getattr(mod, 'ISOLATE', True)
+    if isolate:
+        # import the heavy modules once in the parent so that the per-case children inherit them
+        for name in ('panqec.codes', 'panqec.decoders', 'panqec.error_models', 'panqec.simulation',
+                     'panqec.analysis', 'panqec.cli', 'panqec.gui', 'panqec.config', 'scipy.optimize',
+                     'pandas', 'click.testing'):
+            try:
+                importlib.import_module(name)
+            except Exception:
+                pass
     pool = None
     if isolate:
         it = _forked(work, max(1, workers))
